@@ -6,6 +6,7 @@ booleans, locals, let, if, begin, set! of locals, binary primitives, calls of gl
 All theorems hold for every program of the fragment, every call depth and every stack contents.
 -/
 import SteelVerif.C01.Correct
+import SteelVerif.C01.PropsCore
 namespace SteelVerif.C01
 
 theorem runVM_of_steps (fns : List FnDef) : ∀ (n m : Nat) (a b : VM) (v : Val),
